@@ -35,6 +35,8 @@ type vfPipe struct {
 	wrFaultAt int   // ordinal (0-based) of the Write that fails; -1 none
 	wrShort   int   // bytes accepted by the failing write
 	wrDead    error // sticky write error afterwards
+	wrFaultSeq int  // scheduler seq at which the write fault fired (0: not yet)
+	termSeq    int  // scheduler seq at which the reader got its terminal error
 	closes    int   // Close calls on the writer end
 
 	tap       func(p []byte) // sees every accepted byte, synchronously
@@ -119,6 +121,7 @@ func (p *vfPipe) terminate(err error, why string) {
 	s := p.sim
 	s.mu.Lock()
 	p.termErr = err
+	p.termSeq = s.seq
 	w := p.waiter
 	p.waiter = nil
 	s.stats["fault."+p.name+"."+why]++
@@ -219,6 +222,7 @@ func (p *vfPipe) Write(b []byte) (int, error) {
 		}
 		p.buf = append(p.buf, b[:k]...)
 		p.wrDead = vfErrWriteFault
+		p.wrFaultSeq = s.seq
 		s.stats["fault."+p.name+".wrerr"]++
 		if k > 0 {
 			s.stats["fault."+p.name+".shortwr"]++
